@@ -194,8 +194,10 @@ def c06_matrix(seed, tier):
     # and sampling-phase updates are all among its checkpoints
     m = [dict(kind='gauss', n_batch=5, n_live=10, n_points_min=3, seed=51 + s, mseed=s, n_like_max=400, resume_budget=420,
               runkw=dict(n_eff=30, discard_exploration=True, n_shell=6)),
+         # second configuration: '.hdf5' suffix in a directory that does not exist when the run starts
          dict(kind='two', n_batch=5, n_live=20, n_networks=1, blob='multi', periodic=[0], seed=52 + s, mseed=s,
-              n_like_max=150, resume_budget=170, n_update=20, runkw=dict(n_eff=40, discard_exploration=False))]
+              n_like_max=150, resume_budget=170, n_update=20, relpath='out/run1/ck.hdf5',
+              runkw=dict(n_eff=40, discard_exploration=False))]
     if tier == 'thorough':
         m += [dict(kind='plateau', n_batch=4, n_live=20, blob='float', seed=53 + s, mseed=s, n_like_max=400,
                    resume_budget=420, runkw=dict(n_eff=60, discard_exploration=True)),
